@@ -11,6 +11,7 @@ package sym
 
 import (
 	"fmt"
+	"os"
 	"go/types"
 	"strings"
 
@@ -115,9 +116,16 @@ func (e *Exec) freshRecv(st *State, t types.Type, name string) Val {
 			ag.Elems[i] = e.Input(name+"_"+stt.Field(i).Name(), "bool", types.Typ[types.Bool])
 		} else if types.Identical(ft, types.Universe.Lookup("error").Type()) {
 			ag.Elems[i] = e.mkError(&StrV{Conc: "run failed"})
+		} else if b, ok := ft.Underlying().(*types.Basic); ok && b.Kind() == types.String {
+			// a text that identifies this received value (e.g. the log id of the run): "[7<k>]", distinct per receive
+			ag.Elems[i] = &StrV{Conc: fmt.Sprintf("[7%s]", strings.TrimPrefix(strings.Replace(name, "_", "", -1), "recv"))}
 		}
 	}
 	id := e.newObj(st, pt.Elem(), ag)
+	if e.recvVals == nil {
+		e.recvVals = map[string]Val{}
+	}
+	e.recvVals[name] = &Ptr{Obj: id}
 	return &Ptr{Obj: id}
 }
 
@@ -150,6 +158,83 @@ func init() {
 			}
 			return &StrV{}
 		}
+		// vRecvN(): number of select statements executed so far; vRecvTaken(k, c): case c of the k-th select was the one
+		// taken (symbolic); vRecvValue(k, c): the value that case received (a pointer for result channels)
+		intrinsics["vRecvN"] = func(e *Exec, st *State, fn *ssa.Function, args []Val, where string) Val {
+			return e.F.FromIndexInt(e.S.Int(int64(e.selCount)), types.Typ[types.Int])
+		}
+		intrinsics["vRecvTaken"] = func(e *Exec, st *State, fn *ssa.Function, args []Val, where string) Val {
+			k, ok1 := e.term(args[0], "vRecvTaken").ConstInt()
+			c, ok2 := e.term(args[1], "vRecvTaken").ConstInt()
+			if !ok1 || !ok2 {
+				panic(&UnsupportedErr{Msg: "vRecvTaken needs concrete arguments at " + where})
+			}
+			g := e.selTaken[[2]int{int(k), int(c)}]
+			if g == nil {
+				return e.S.False
+			}
+			return g
+		}
+		intrinsics["vRecvValue"] = func(e *Exec, st *State, fn *ssa.Function, args []Val, where string) Val {
+			k, ok1 := e.term(args[0], "vRecvValue").ConstInt()
+			c, ok2 := e.term(args[1], "vRecvValue").ConstInt()
+			if !ok1 || !ok2 {
+				panic(&UnsupportedErr{Msg: "vRecvValue needs concrete arguments at " + where})
+			}
+			v, ok := e.recvVals[fmt.Sprintf("recv_%d_%d", k, c)]
+			if !ok {
+				return &IfaceV{}
+			}
+			p := v.(*Ptr)
+			root := st.Mem[p.Obj]
+			if ag, ok := root.(*Agg); ok {
+				return &IfaceV{T: types.NewPointer(ag.Typ), V: v}
+			}
+			return &IfaceV{}
+		}
+		// vOutCount(text): number of lines written to standard output (so far, on the current path) that equal text
+		intrinsics["vOutCount"] = func(e *Exec, st *State, fn *ssa.Function, args []Val, where string) Val {
+			s := e.S
+			c := s.Int(0)
+			for _, ev := range e.Outs {
+				if ev.Chan != "stdout" || ev.Text == nil {
+					continue
+				}
+				var eq *Term
+				switch ev.Text.(type) {
+				case *StrV, *StrIte:
+					eq = e.strMapT(ev.Text, func(x *StrV) *Term {
+						return e.strMapT(args[0], func(y *StrV) *Term {
+							if x.Segs != nil && y.Segs == nil && y.Sym == nil {
+								// literal text + rendered numbers against a concrete text: different literal prefix = different
+								if x.Segs[0].Dec == nil && !strings.HasPrefix(y.Conc, x.Segs[0].Text) {
+									return e.S.False
+								}
+							}
+							if x.Sym == nil && x.Segs == nil && y.Sym == nil && y.Segs == nil {
+								// Println appends a line feed
+								return e.S.Bool(strings.TrimSuffix(x.Conc, "\n") == strings.TrimSuffix(y.Conc, "\n"))
+							}
+							if y.Sym == nil && y.Segs == nil {
+								// Println appends a line feed
+								return e.S.Or(e.strEq(x, y), e.strEq(x, &StrV{Conc: y.Conc + "\n"}))
+							}
+							return e.strEq(x, y)
+						})
+					})
+				default:
+					continue
+				}
+				if os.Getenv("VERIF_OUT_DEBUG") != "" {
+					if f, err := os.OpenFile("/tmp/outcount.log", os.O_APPEND|os.O_CREATE|os.O_WRONLY, 0644); err == nil {
+						fmt.Fprintf(f, "event %T %v guardTrue=%v eqConst=%v/%v\n", ev.Text, describeStr(ev.Text), ev.Guard.IsTrue(), eq.IsTrue(), eq.IsFalse())
+						f.Close()
+					}
+				}
+				c = s.Add(c, s.Ite(s.And(ev.Guard, eq), s.Int(1), s.Int(0)))
+			}
+			return e.F.FromIndexInt(c, types.Typ[types.Int])
+		}
 		// vRecvFailed: number of received results whose Success field is false
 		intrinsics["vRecvFlagCount"] = func(e *Exec, st *State, fn *ssa.Function, args []Val, where string) Val {
 			field, _ := e.concStr(args[0])
@@ -174,4 +259,20 @@ func init() {
 			return e.F.FromIndexInt(c, types.Typ[types.Int])
 		}
 	})
+}
+
+func describeStr(v Val) string {
+	switch x := v.(type) {
+	case *StrV:
+		if x.Sym != nil {
+			return "<sym>"
+		}
+		if x.Segs != nil {
+			return fmt.Sprintf("<segs %q...>", x.Segs[0].Text)
+		}
+		return fmt.Sprintf("%q", x.Conc)
+	case *StrIte:
+		return "ite(" + describeStr(x.A) + "," + describeStr(x.B) + ")"
+	}
+	return fmt.Sprintf("%T", v)
 }
